@@ -353,6 +353,24 @@ def build(T, tree, pfx="L"):
         for (A, R), m in zip(subs, mults):
             blocks += [R] * m
         return ops.BlockDiag(*[s[0] for s in subs], multiplicities=list(mults)), ref_blockdiag(T, blocks)
+    if kind == "pair":
+        # product of two wrappers of the SAME operator object: ["pair", w1, w2, sub], w in I / T / H / Tc / Hc
+        _, w1, w2, sub = tree
+        A, R = build(T, sub, pfx + "p")
+
+        def wrap(w):
+            if w == "I":
+                return A, R
+            if w == "T":
+                return A.T, ref_T(T, R)
+            if w == "H":
+                return A.H, ref_H(T, R)
+            if w == "Tc":
+                return ops.Transpose(A), ref_T(T, R)
+            return ops.Adjoint(A), ref_H(T, R)
+
+        (A1, R1), (A2, R2) = wrap(w1), wrap(w2)
+        return A1 @ A2, ref_matmul(T, R1, R2)
     if kind == "transpose":
         A, R = build(T, tree[1], pfx + "t")
         return ops.Transpose(A), ref_T(T, R)
@@ -390,6 +408,11 @@ def tree_shape(tree):
         return (len(tree[1]), ) * 2
     if k in ("generic", "nodispatch"):
         return tree_shape(tree[1])
+    if k == "pair":
+        s = tree_shape(tree[3])
+        a = s if tree[1] == "I" else (s[1], s[0])
+        b = s if tree[2] == "I" else (s[1], s[0])
+        return (a[0], b[1])
     if k == "product":
         return (tree_shape(tree[1])[0], tree_shape(tree[-1])[1])
     if k == "sum":
@@ -428,6 +451,8 @@ def tree_name(tree):
         return "perm" + "".join(map(str, tree[1])) + _dtn(tree[2])
     if k in ("generic", "nodispatch", "transpose", "adjoint", "T", "H"):
         return f"{k}({tree_name(tree[1])})"
+    if k == "pair":
+        return f"pair{tree[1]}{tree[2]}({tree_name(tree[3])})"
     if k in ("product", "sum", "kron", "kronsum"):
         return f"{k}(" + ",".join(tree_name(t) for t in tree[1:]) + ")"
     if k == "blockdiag":
